@@ -221,6 +221,13 @@ def check_forest(pid, forest, cfg, L, cyclic, pmap, viol, kind, txt, bump, parse
                  {"expected_trees": len(refset), "observed_distinct_trees": len(gotset),
                   "one_missing": repr(sorted(missing)[0])[:300]})
         if pid == "C17":
+            # each tree parses exactly the prefix its root span claims
+            for i in range(n_spec):
+                t = forest.get_tree(i)
+                why = prefix_span_report(t, L.text)
+                if why:
+                    viol("glr.prefix_tree_span_is_its_prefix", kind, txt, {"tree_index": i, "why": why})
+                    break
             extra = gotset - refset
             if extra:
                 viol("glr.prefix_trees_only", kind, txt, {"one_extra": repr(sorted(extra)[0])[:300]})
@@ -230,6 +237,26 @@ def check_forest(pid, forest, cfg, L, cyclic, pmap, viol, kind, txt, bump, parse
         return
     if pid == "C03":
         check_c03(forest, n_spec, forest_cyclic, pmap, viol, kind, txt, bump)
+
+
+def prefix_span_report(tree, text, ws=" \n\r\t"):
+    """The root span of a prefix tree ends where its last token ends (up to layout/empty matches)."""
+    leaves = []
+
+    def walk(n):
+        if n.is_term():
+            leaves.append(n)
+        else:
+            for c in n.children:
+                walk(c)
+    walk(tree)
+    s, e = tree.start_position, tree.end_position
+    if not (isinstance(s, int) and isinstance(e, int) and 0 <= s <= e <= len(text)):
+        return f"root span ({s!r}, {e!r})"
+    last = leaves[-1].end_position if leaves else s
+    if text[last:e].strip(ws) != "" or e < last:
+        return f"root span ends at {e} but its last token ends at {last}"
+    return None
 
 
 def check_c03(forest, n_spec, forest_cyclic, pmap, viol, kind, txt, bump):
